@@ -504,10 +504,4 @@ def parseStart (ts : List Token) : Option StartTree :=
     let (w1, r2) := spanWS r1
     if r2.isEmpty then some ⟨w0, q, w1⟩ else none
 
-/-- the reference recogniser on strings: lex, then parse to end of input -/
-def accepts (s : List Char) : Bool :=
-  match lex s with
-  | .ok ts => (parseStart ts).isSome
-  | .error _ => false
-
 end StorageModel.C10
